@@ -168,8 +168,12 @@ class SelfAdjointOperator(Operator):
                               self.data)).all()
         
     def diagonalize(self):
-        # first use is of "data", the rest of "_data"
-        dd,SS = numpy.linalg.eigh(self.data)
+        # reading "data" brings the operator to the current basis; the values
+        # are taken from the storage "_data": for an operator with units
+        # management (Hamiltonian) "data" returns them converted to the
+        # current units, and the storage keeps internal units
+        self.data
+        dd,SS = numpy.linalg.eigh(self._data)
         self._data = numpy.zeros(self._data.shape)
         for ii in range(self._data.shape[0]):
             self._data[ii,ii] = dd[ii]
